@@ -45,6 +45,7 @@ def _staged(*stages):
 
 
 REGISTRY['C09'] = _staged(('values', props_values.run), ('histories', props_cache.run_histories))
+REGISTRY['C01'] = _staged(('sched', props_sched.run), ('histories', props_cache.run_histories))
 REGISTRY['C02'] = _staged(('sched', props_sched.run), ('histories', props_cache.run_histories))
 
 import props_diagram
